@@ -268,6 +268,9 @@ Ev(e, ctx, exp) ==
          LET ts == Ev(e.e, ctx, exp) IN
          Errs(ts) \cup UNION {IF th.t = "thread" THEN Ev(th.v, ctx, exp) ELSE {ErrV("AttributeError", "*")} : th \in Vals(ts)}
     [] e.k = "tags" -> Ev(e.e, ctx, exp)    \* apply_tags returns the value unchanged
+    \* subrun(expr, ...): a sub-scheduler evaluates expr with the calling job's context and exported
+    \* options; in a new or in the current execution the outcome is that of evaluating expr directly (C38)
+    [] e.k = "subrun" -> Ev(e.e, ctx, exp)
     [] e.k = "partial" ->                   \* task.partial(*args): arguments are NOT evaluated now
          {V("task", <<e.t, e.args>>)}
     [] e.k = "callp" ->                     \* call a (partial) task value
